@@ -21,7 +21,7 @@ def expand(ctx, base, nofault, tier, r):
     cases = []
     for (comp, args), nf in zip(base, nofault):
         t = fc.tail(nf) if nf else None
-        req = t[0] if t else 0
+        req = t[0] if (t and comp != "default") else 0
         ks = list(range(req))
         if tier == "quick" and len(ks) > MAX_K_QUICK and comp != "btree64":   # small pages: every k, always
             ks = sorted(set([0, 1, req - 1, req - 2] + r.sample(ks, MAX_K_QUICK - 4)))
@@ -37,7 +37,7 @@ def evaluate(ctx, triples, lines, nofault_of):
 
     def rec(qs):
         queries.extend(qs)
-        return ["T OK -" if q.startswith("T") else "L OK" for q in qs]
+        return ["T OK -" if q.startswith("T") else ("D -" if q.startswith("D") else "L OK") for q in qs]
     for (comp, fault, args), line in zip(triples, lines):
         fc.judge(comp, fault, args, line, nofault_of.get((comp, args)), rec)
     gq = []
@@ -53,7 +53,12 @@ def evaluate(ctx, triples, lines, nofault_of):
     probs, l2 = [], []
     for i, ((comp, fault, args), line) in enumerate(zip(triples, lines)):
         probs.append(fc.judge(comp, fault, args, line, nofault_of.get((comp, args)), lambda qs: [table[q] for q in qs]))
-        if gq[i]:
+        if gq[i] and gq[i].startswith("D "):
+            want = table[gq[i]][2:]
+            got = line.split(" ; ")[0].split()[0][len("calls="):]
+            if want != got:
+                l2.append((i, want, got))
+        elif gq[i]:
             want = table[gq[i]][2:].split() if table[gq[i]] != "G -" else []
             got = fc.trace_of(line)
             same = (want == got) if comp != "tree" else (sorted(want) == sorted(got))
